@@ -56,7 +56,15 @@ Fixpoint ins (x : fsalt) (l : list fsalt) : list fsalt :=
 Definition sort_desc (l : list fsalt) : list fsalt := fold_left (fun acc x => ins x acc) l [].
 Definition store (l new : list fsalt) : list fsalt := sort_desc (dedup [] (l ++ new)).
 
-(* ---------- the connection's salt state ---------- *)
+(* ---------- the connection's salt state ----------
+   Atomic steps.  Since fix 710c66ebc updateSalt (salts.Get, then storeSalt) and resetSalt
+   (storeSalt of the server-told salt, then salts.Reset) run under one mutex (Conn.saltMux), so
+   each is ONE step of the transition system below, whichever goroutine performs it (the read
+   path runs updateSalt once per incoming message, writers once per outgoing message).  All
+   interleavings of those goroutines are therefore exactly the op sequences quantified over.
+   Before the fix a read-path updateSalt could be split around Invoke's bad-salt handling and
+   put a stale future salt back (forced on the real Conn by the harness scenario
+   "race-updateSalt-vs-bad-salt"). *)
 (* where the currently held salt came from (ghost field, not in the code) *)
 Inductive src :=
 | Initial                 (* Options.Salt / restored session *)
@@ -141,3 +149,22 @@ Definition invoke (st : cstate) (now1 now2 : Z) (r1 r2 : do_res) : list Z * outc
       else ([cur st1], ret_of r1, st1)
   | _ => ([cur st1], ret_of r1, st1)
   end.
+
+(* Invoke with an arbitrary environment between the bad-salt handling and the second send:
+   env = what other goroutines do in between (read-path updateSalt calls = OAttach at any clock
+   readings, future_salts answers = OStore, further told salts, resets). *)
+Definition invoke_env (st : cstate) (now1 : Z) (r1 : do_res) (env : list op) (now2 : Z) (r2 : do_res)
+  : list Z * outcome * cstate :=
+  let st1 := update_salt now1 st in
+  match r1 with
+  | DoBad code ns =>
+      if invoke_retries_go true code then
+        let st2 := {| cur := ns; cur_src := Told; salts := [] |} in   (* resetSalt: one step *)
+        let st3 := update_salt now2 (run_state st2 env) in
+        ([cur st1; cur st3], ret_of r2, st3)
+      else ([cur st1], ret_of r1, st1)
+  | _ => ([cur st1], ret_of r1, st1)
+  end.
+
+Definition quiet (o : op) : bool :=   (* ops that cannot bring a salt: read-path updateSalt, Reset *)
+  match o with OAttach _ | OReset => true | _ => false end.
